@@ -52,6 +52,14 @@ def history(engine, length):
                 last = s.sample_combos(n, combos, verbosity=0)
             else:
                 crop = s.Crop(name="c", parent_dir=d, batchsize=rnd.choice([1, 2, 3]))
+                if rnd.random() < 0.4:
+                    # sown, (partly) grown, then sown again before reaping: the new random samples must not be paired with old results
+                    crop.sow_samples(n, combos, verbosity=0)
+                    if rnd.random() < 0.5:
+                        crop.grow_missing()
+                    else:
+                        crop.grow(1)
+                    hist[-1] = hist[-1] + ("re-sown",)
                 if rnd.random() < 0.5:
                     cval = 3                 # a constant given with the sowing: used by the function and recorded in the rows
                     crop.sow_samples(n, combos, constants={"c": cval}, verbosity=0)
